@@ -333,10 +333,12 @@ func (n *wnode) start(ns NodeSpec, info *runInfo) *daemon {
 		default:
 			switch {
 			case strings.HasPrefix(str, "debug HTTP server "):
-				// needs a real TCP listener: replaced by a stub with the same name
 				info.taskKind[n.id] = append(info.taskKind[n.id], "http")
-				addr, _ := strconv.Unquote(strings.TrimPrefix(str, "debug HTTP server "))
-				tasks[i] = &stubHTTPTask{addr: addr, readyC: make(chan struct{})}
+				if !SimRealHTTP {
+					// needs a real TCP listener: replaced by a stub with the same name
+					addr, _ := strconv.Unquote(strings.TrimPrefix(str, "debug HTTP server "))
+					tasks[i] = &stubHTTPTask{addr: addr, readyC: make(chan struct{})}
+				}
 			case str == "link state watcher":
 				info.taskKind[n.id] = append(info.taskKind[n.id], "watcher")
 			default:
@@ -779,7 +781,8 @@ func execPlan(t *testing.T, p *Plan, res *verifsim.Result, oracle func(*runInfo)
 		system.VerifRtnl = w.rtnl
 		system.VerifLoopbacks = w.loopbacks
 		system.SimKernel = worldKernel{w}
-		defer func() { system.VerifRtnl, system.VerifLoopbacks, system.SimKernel = nil, nil, nil }()
+		SimListen = w.listen
+		defer func() { system.VerifRtnl, system.VerifLoopbacks, system.SimKernel, SimListen = nil, nil, nil, nil }()
 
 		if p.Scenario != "" {
 			sc, ok := scenarios[p.Scenario]
